@@ -5795,16 +5795,16 @@ class CodegenCtx:
             assert action.into_storage.holds_buflike()
 
             # free buffer if required
-            if ProgramData.do(ProgramFlag.ALLOCATE_STR_SPACE_DYNAMIC_ON_DEMAND) and ProgramData.do(ProgramFlag.DELETE_STRING_FREE_MEMORY) and not is_start and self._is_dynamic(action.into_storage):
+            if ProgramData.do(ProgramFlag.ALLOCATE_STR_SPACE_DYNAMIC_ON_DEMAND) and ProgramData.do(ProgramFlag.DELETE_STRING_FREE_MEMORY) and self._is_dynamic(action.into_storage):
+                # (also among the start actions: the pointer is NULL or holds the default's / an earlier start action's buffer by then)
                 result.add(f"free(state->c.{action.into_storage.name});")
                 result.add(f"state->c.{action.into_storage.name} = NULL;")
             else:
                 # if buffer is not freed, ensure strings are made empty
                 if action.into_storage.holds_a(OutputStorageType.STR) and action.into_storage.str_null:
                     if ProgramData.do(ProgramFlag.ALLOCATE_STR_SPACE_DYNAMIC_ON_DEMAND) and self._may_be_unallocated(action.into_storage) and self._is_dynamic(action.into_storage):
-                        # the buffer may not have been allocated yet (and never is at the start)
-                        if not is_start:
-                            result.add(f"if (state->c.{action.into_storage.name}) state->c.{action.into_storage.name}[0] = 0;")
+                        # the buffer may not have been allocated yet
+                        result.add(f"if (state->c.{action.into_storage.name}) state->c.{action.into_storage.name}[0] = 0;")
                     else:
                         result.add(f"state->c.{action.into_storage.name}[0] = 0;")
 
